@@ -345,6 +345,9 @@ func (pp *PairPos) Sanitize() error {
 			return fmt.Errorf("GPOS: invalid PairPos1 sets count (%d > %d)", exp, got)
 		}
 	} else if f2, isFormat2 := pp.Data.(PairPosData2); isFormat2 {
+		if f2.ClassDef1 == nil || f2.ClassDef2 == nil { // null offset
+			return errors.New("GPOS: missing PairPos2 class definition")
+		}
 		if exp, got := f2.ClassDef1.Extent(), int(f2.class1Count); exp != got {
 			return fmt.Errorf("GPOS: invalid PairPos2 class1 count (%d != %d)", exp, got)
 		}
